@@ -737,6 +737,9 @@ fn push_cont(rng: &mut Rng, w: &mut CaseWriter, cfg: &StreamCfg) {
         for k in pick {
             let (i, d) = &v[k];
             w.push("cont", vec![i.to_string(), d.clone(), opts.clone(), fmt_refs(&s.refs), hex(&text)]);
+            if d != "-" {
+                w.push("sblk", vec![i.to_string(), d.clone(), opts.clone(), fmt_refs(&s.refs), hex(&text)]);
+            }
         }
     }
 }
